@@ -117,7 +117,14 @@ VErrPos(r) ==
 VStr(r) ==
     LET reg == RegOf(r)
         cv  == CompileVerdict(r.q, reg, LoOf(r), HiOf(r))
-    IN  IF cv.v # "accept" THEN Acc
+    IN  IF cv.v = "reject" THEN Acc
+        ELSE IF cv.v = "either" THEN
+            \* (a literal outside the range where the model is exact, blank space the ABNF is silent about): the
+            \* specification cannot compute the query's meaning, but the round trip is still observable
+            IF ~r.recompiles THEN Rej("C12 str() text does not compile", <<>>)
+            ELSE IF r.s2 # r.s THEN Rej("C12 serialising again gives a different text", <<>>)
+            ELSE IF Has(r, "same") /\ ~r.same THEN Rej("C12 the compiled serialisation behaves differently from the compiled original", <<>>)
+            ELSE Acc
         ELSE LET a1 == Parse(r.q, FALSE).v
                  cs == CompileVerdict(r.s, reg, LoOf(r), HiOf(r))
              IN  IF cs.v = "reject" THEN Rej("C12 str() text is not a valid query", <<cs.why, cs.msg, cs.at>>)
